@@ -79,6 +79,8 @@ func c06TableText(sc *c06Scenario, v int) string {
 	}
 	b.WriteString("route add rd /rd https://redir.example.com$path opts \"redirect=301\"\n")
 	b.WriteString("route add rh old.example.com/ https://new.example.com$path opts \"redirect=302\"\n")
+	b.WriteString("route add rhost *.multi.example.com/ https://$host/login opts \"redirect=302\"\n")
+	b.WriteString("route add rhp *.hp.example.com/ https://secure.$host$path opts \"redirect=307\"\n")
 	fmt.Fprintf(&b, "route add acl /acl http://acl-v%d:80/ opts \"allow=ip:10.0.0.0/8\"\n", v)
 	return b.String()
 }
@@ -105,12 +107,23 @@ func c06Gen(g *simcore.Tape, thorough bool) *c06Scenario {
 	if thorough {
 		ntasks = g.Range(2, 6)
 	}
-	kinds := []string{"w", "w", "e", "rd", "rd", "glob", "glob", "rh", "acl", "none"}
+	kinds := []string{"w", "w", "e", "rd", "rd", "glob", "glob", "rh", "acl", "none", "rhost", "rhost", "rhp"}
+	// hot mode: every task hammers one multi-target route so that the ring wraps under contention
+	hot := ""
+	if g.Chance(35) {
+		hot = simcore.Pick(g, []string{"e", "w", "rhost", "rd"})
+	}
 	for t := 0; t < ntasks; t++ {
 		n := g.Range(1, 3)
+		if hot != "" {
+			n = g.Range(2, 6)
+		}
 		var reqs []c06Req
 		for k := 0; k < n; k++ {
 			rq := c06Req{Kind: simcore.Pick(g, kinds), Remote: "10.1.2.3:4000"}
+			if hot != "" && g.Chance(85) {
+				rq.Kind = hot
+			}
 			switch rq.Kind {
 			case "w":
 				rq.Path = "/w"
@@ -124,6 +137,15 @@ func c06Gen(g *simcore.Tape, thorough bool) *c06Scenario {
 			case "rh":
 				rq.Host = "old.example.com"
 				rq.Path = fmt.Sprintf("/q%d", g.Intn(5))
+			case "rhost":
+				rq.Host = fmt.Sprintf("t%d.multi.example.com", g.Intn(4))
+				rq.Path = simcore.Pick(g, []string{"/", "/login", "/x"})
+				if g.Chance(30) {
+					rq.XFP = "https"
+				}
+			case "rhp":
+				rq.Host = fmt.Sprintf("u%d.hp.example.com", g.Intn(3))
+				rq.Path = fmt.Sprintf("/p%d", g.Intn(3))
 			case "acl":
 				rq.Path = "/acl"
 				if g.Bool() {
@@ -209,19 +231,21 @@ func runC06(r *simcore.Run) {
 			return
 		}
 		tables = append(tables, shared)
-		private, _ := route.NewTable(bytes.NewBufferString(text))
-		cfg := c06Config(sc)
-		gc := route.NewGlobCache(1000)
-		pp := &proxy.HTTPProxy{Config: cfg.Proxy, Transport: c06Stub{}, Stats: *stats,
-			Lookup: func(req *http.Request) *route.Target {
-				return private.Lookup(req, "", route.Picker["rr"], route.Matcher["prefix"], gc, false)
-			}}
 		expect[v] = map[c06Req]c06Outcome{}
 		for _, reqs := range sc.Tasks {
 			for _, rq := range reqs {
-				if _, ok := expect[v][rq]; !ok {
-					expect[v][rq] = c06Serve(pp, rq)
+				if _, ok := expect[v][rq]; ok {
+					continue
 				}
+				// every expectation is computed alone: fresh private table, fresh cache, fresh proxy
+				private, _ := route.NewTable(bytes.NewBufferString(text))
+				cfg := c06Config(sc)
+				gc := route.NewGlobCache(1000)
+				pp := &proxy.HTTPProxy{Config: cfg.Proxy, Transport: c06Stub{}, Stats: *stats,
+					Lookup: func(req *http.Request) *route.Target {
+						return private.Lookup(req, "", route.Picker["rr"], route.Matcher["prefix"], gc, false)
+					}}
+				expect[v][rq] = c06Serve(pp, rq)
 			}
 		}
 	}
